@@ -168,7 +168,8 @@ func (p *Parser) evaluateLine(l string) error {
 	directive := strings.ToLower(dir)
 
 	if len(opts) >= 3 && opts[0] == '"' && opts[len(opts)-1] == '"' {
-		opts = strings.Trim(opts, `"`)
+		// only the enclosing pair: a quote that ends the last value belongs to the value
+		opts = opts[1 : len(opts)-1]
 	}
 
 	if directive == "include" {
